@@ -33,6 +33,7 @@ inductive Ty where
   | refTo (id : String)     -- `AstTypeReference`, `refto`
   | listOf                  -- `AstTypeReference`, `listof`
   | lit                     -- constant: string / numeric literal
+  | named (cls : String)    -- `self`: the eval type is the class, whatever the tables say
   | other                   -- any other type node
 deriving DecidableEq, Repr, Inhabited
 
@@ -95,6 +96,37 @@ deriving Repr
 def Tab.insert (norm : String → String) (t : Tab) (d : Decl) : Tab :=
   { t with sc := t.sc.insert norm (toSym d) }
 
+/-- `self`: a copy of the class symbol under the id `self` (its eval type stays the class) -/
+def selfOff : Nat := 5000
+def selfOf (d : Decl) : Decl := { d with id := "self", uid := d.uid + selfOff, ty := .named d.id }
+
+/-- the symbols one visit inserts, in order -/
+def Ev.decls : Ev → List Decl
+  | .decl d => [d]
+  | .uses _ => []
+  | .cls d _ => [d, selfOf d]
+  | .mod d => [d]
+
+def Ev.usesOf : Ev → List String
+  | .uses n => [n]
+  | _ => []
+
+/-- effect of a visit on the scope that is current: `insert_symbol_info` / `add_uses_entity` -/
+def Tab.ev (norm : String → String) (t : Tab) (e : Ev) : Tab :=
+  { (e.decls.foldl (Tab.insert norm) t) with uses := t.uses ++ e.usesOf }
+
+/-- effect of a visit on the root table's name and parent pointer (`handle_class` / `handle_module`
+    write `root_symbol_table.for_class_or_module` and link the parent whatever scope is current);
+    the parent is not linked when it is spelled exactly like the class -/
+def hdr (r : Tab) : Ev → Tab
+  | .cls d p =>
+    let r1 : Tab := { r with sc := { r.sc with cls := d.id } }
+    match p with
+    | some pn => if pn = d.id then r1 else { r1 with parent := some pn }
+    | none => r1
+  | .mod d => { r with sc := { r.sc with cls := d.id } }
+  | _ => r
+
 /-- annotator state: `root_symbol_table`, `symbol_table_stack` (depth ≤ 1), the tables
     already attached to finished methods -/
 structure St where
@@ -103,44 +135,24 @@ structure St where
   done : List Tab := []
 deriving Repr
 
-/-- `insert_symbol_info`: last table on the stack, else the root table -/
-def St.insert (norm : String → String) (s : St) (d : Decl) : St :=
-  match s.cur with
-  | some c => { s with cur := some (c.insert norm d) }
-  | none => { s with root := s.root.insert norm d }
-
-def St.addUses (s : St) (n : String) : St :=
-  match s.cur with
-  | some c => { s with cur := some { c with uses := c.uses ++ [n] } }
-  | none => { s with root := { s.root with uses := s.root.uses ++ [n] } }
-
 /-- `notify_end_method` -/
 def St.endMethod (s : St) : St :=
   match s.cur with
   | some c => { s with cur := none, done := s.done ++ [c] }
   | none => s
 
-def St.setCls (s : St) (n : String) : St :=
-  { s with root := { s.root with sc := { s.root.sc with cls := n } } }
-
-/-- one visit.  `handle_class`: the root table is named, the parent pointer is requested unless
-    the parent is spelled exactly like the class, the class symbol and `self` go to the current
-    scope.  Method start: the previous scope is attached to its method, the method symbol goes
-    to the root table, a new scope is pushed that copies the root's class name and uses. -/
+/-- one visit.  Declarations and uses go to the last table on the stack, else to the root table.
+    Method start: the previous scope is attached to its method, the method symbol goes to the
+    root table, a new scope is pushed that copies the root's class name and uses. -/
 def step (norm : String → String) (s : St) : Top → St
-  | .ev (.decl d) => s.insert norm d
-  | .ev (.uses n) => s.addUses n
-  | .ev (.cls d p) =>
-    let s1 := s.setCls d.id
-    let s2 : St := match p with
-      | some pn => if pn = d.id then s1 else { s1 with root := { s1.root with parent := some pn } }
-      | none => s1
-    (s2.insert norm d).insert norm { d with id := "self" }
-  | .ev (.mod d) => (s.setCls d.id).insert norm d
+  | .ev e =>
+    match s.cur with
+    | some c => { s with root := hdr s.root e, cur := some (c.ev norm e) }
+    | none => { s with root := (hdr s.root e).ev norm e }
   | .meth d =>
     let s1 := s.endMethod
-    let s2 : St := { s1 with root := s1.root.insert norm d }
-    { s2 with cur := some ⟨Scope.empty s2.root.sc.cls, s2.root.uses, none⟩ }
+    let r := s1.root.insert norm d
+    { s1 with root := r, cur := some ⟨Scope.empty r.sc.cls, r.uses, none⟩ }
 
 def run (norm : String → String) (l : List Top) (s : St) : St := l.foldl (step norm) s
 
@@ -158,13 +170,21 @@ def rootOf (norm : String → String) (e : Entity) : Tab := (annotate norm e).ro
 def index (norm : String → String) (w : Ws) (name : String) : Option Entity :=
   w.find? (fun e => norm e.stem == norm name)
 
+/-- the root table the class index gives for entity `e`.  `now` names the entity that is being
+    annotated (its `DocumentInfo` already holds the table that is still being filled): every
+    pointer to it — also the parent pointers of its descendants — sees that partial table. -/
+def rootNow (norm : String → String) (now : Option (String × Tab)) (e : Entity) : Tab :=
+  match now with
+  | some (stem, t) => if e.stem = stem then t else rootOf norm e
+  | none => rootOf norm e
+
 /-- the tables behind a parent pointer (`fuel` bounds the walk; cyclic chains are C14's) -/
-def parents (norm : String → String) (w : Ws) : Nat → Option String → Chain
+def parents (norm : String → String) (w : Ws) (now : Option (String × Tab)) : Nat → Option String → Chain
   | 0, _ => []
   | _+1, none => []
   | f+1, some p =>
     match index norm w p with
-    | some e => (rootOf norm e).sc :: parents norm w f (rootOf norm e).parent
+    | some e => (rootNow norm now e).sc :: parents norm w now f (rootNow norm now e).parent
     | none => []
 
 /-- a symbol table as its users see it: the chain through the parent pointers and its uses -/
@@ -173,23 +193,39 @@ structure View where
   uses  : List String
 deriving Repr
 
-def viewRoot (norm : String → String) (w : Ws) (r : Tab) : View :=
-  ⟨r.sc :: parents norm w w.length r.parent, r.uses⟩
+def viewRoot (norm : String → String) (w : Ws) (now : Option (String × Tab)) (r : Tab) : View :=
+  ⟨r.sc :: parents norm w now w.length r.parent, r.uses⟩
 
-/-- `get_cur_sym_table()` during the walk -/
-def viewCur (norm : String → String) (w : Ws) (s : St) : View :=
+/-- `get_cur_sym_table()` during the walk of entity `stem` -/
+def viewCur (norm : String → String) (w : Ws) (stem : String) (s : St) : View :=
   match s.cur with
-  | some c => ⟨c.sc :: (viewRoot norm w s.root).chain, c.uses⟩
-  | none => viewRoot norm w s.root
+  | some c => ⟨c.sc :: (viewRoot norm w (some (stem, s.root)) s.root).chain, c.uses⟩
+  | none => viewRoot norm w (some (stem, s.root)) s.root
 
 /-- `get_nearest_symbol_table` at request time: the method's table, else the root table -/
 def viewScope (norm : String → String) (w : Ws) (fin : St) (scope : Option Nat) : View :=
   match scope.bind (fun i => fin.done[i]?) with
-  | some m => ⟨m.sc :: (viewRoot norm w fin.root).chain, m.uses⟩
-  | none => viewRoot norm w fin.root
+  | some m => ⟨m.sc :: (viewRoot norm w none fin.root).chain, m.uses⟩
+  | none => viewRoot norm w none fin.root
 
 /-! ### recovering a `SymbolInfo` from its uid -/
 
+def Top.decls : Top → List Decl
+  | .ev e => e.decls
+  | .meth d => [d]
+
+def Top.isMeth : Top → Bool
+  | .meth _ => true
+  | _ => false
+
+def Entity.decls (e : Entity) : List Decl := e.stream.flatMap Top.decls
+
+def allDecls (w : Ws) : List Decl := w.flatMap Entity.decls
+
+/-- the `SymbolInfo` behind a `Sym`: ranges and symbol type are read from here -/
+def findDecl (w : Ws) (uid : Nat) : Option Decl := (allDecls w).find? (fun d => d.uid == uid)
+
+/-- where a declaration was inserted (its eval type was computed with the tables of that moment) -/
 structure Loc where
   ent  : Entity
   time : Nat      -- index of the inserting visit in the entity's stream
@@ -197,19 +233,8 @@ structure Loc where
   meth : Bool     -- the visit is a method start (its return type is resolved after the previous scope was popped)
 deriving Repr
 
-def Top.decl? : Top → Option Decl
-  | .ev (.decl d) => some d
-  | .ev (.cls d _) => some d
-  | .ev (.mod d) => some d
-  | .meth d => some d
-  | .ev (.uses _) => none
-
-def Top.isMeth : Top → Bool
-  | .meth _ => true
-  | _ => false
-
 def Entity.locs (e : Entity) : List Loc :=
-  e.stream.zipIdx.filterMap (fun p => p.1.decl?.map (fun d => ⟨e, p.2, d, p.1.isMeth⟩))
+  e.stream.zipIdx.flatMap (fun p => p.1.decls.map (fun d => ⟨e, p.2, d, p.1.isMeth⟩))
 
 def allLocs (w : Ws) : List Loc := w.flatMap Entity.locs
 
@@ -245,10 +270,10 @@ variable (norm : String → String) (w : Ws)
 
 /-- `SemanticAnalysisService::get_symbol_table_for_class_def_only(name)`: the root table of the
     file the index gives; for the entity under annotation that is the table being filled -/
+def EC.now (ec : EC) : Option (String × Tab) := some (ec.self.stem, ec.st.root)
+
 def service (ec : EC) (name : String) : Option View :=
-  match index norm w name with
-  | some e => some (if e.stem = ec.self.stem then viewRoot norm w ec.st.root else viewRoot norm w (rootOf norm e))
-  | none => none
+  (index norm w name).map (fun e => viewRoot norm w ec.now (rootNow norm ec.now e))
 
 /-- `TypeResolver::search_sym_info` -/
 def searchSym (ec : EC) (v : View) (id : String) (searchUses : Bool) : Option Sym :=
@@ -274,16 +299,17 @@ def resolveTy (rec : Nat → EvalTy) (ec : EC) : Ty → EvalTy
   | .basic id =>
     if isNative norm id then .native
     else if (index norm w (norm id)).isSome then .cls id
-    else match searchSym norm w ec (viewCur norm w ec.st) (norm id) true with
+    else match searchSym norm w ec (viewCur norm w ec.self.stem ec.st) (norm id) true with
       | some x => rec x.tag
       | none => .unresolved id
   | .refTo id =>
     if (index norm w id).isSome then .cls id
-    else match searchSym norm w ec (viewCur norm w ec.st) id false with
+    else match searchSym norm w ec (viewCur norm w ec.self.stem ec.st) id false with
       | some x => rec x.tag
       | none => .unresolved id
   | .listOf => .cls "aListOfInstances"
   | .lit => .native
+  | .named n => .cls n
   | .none => .unknown
   | .other => .unknown
 
@@ -295,7 +321,7 @@ def evalUid : Nat → Nat → EvalTy
     | none => .unknown
     | some loc =>
       match loc.d.kind with
-      | .cls => .cls loc.d.id
+      | .cls => (match loc.d.ty with | .named n => .cls n | _ => .cls loc.d.id)
       | .mod => .mod loc.d.id
       | .proc => .proc
       | .const => .native
@@ -311,7 +337,7 @@ def evalSym (x : Sym) : EvalTy := evalUid norm w (evalFuel w) x.tag
 /-- `resolve_terminal` -/
 def resolveTerminal (ec : EC) (id : String) : EvalTy :=
   let k := norm id
-  match searchSym norm w ec (viewCur norm w ec.st) k false with
+  match searchSym norm w ec (viewCur norm w ec.self.stem ec.st) k false with
   | some x => evalSym norm w x
   | none =>
     match service norm w ec k with
@@ -326,14 +352,15 @@ def resolveCall (ec : EC) (id : String) : EvalTy :=
   let k := norm id
   if k = "WRITELN" ∨ k = "WRITE" then .proc
   else if k = "CONCAT" then .native
-  else match searchSymW norm w ec (viewCur norm w ec.st) k false with
+  else match searchSymW norm w ec (viewCur norm w ec.self.stem ec.st) k false with
     | some (_, x) => evalSym norm w x
     | none => .unknown
 
 /-- `eval_right_hand_of_entity`: the member `id` of entity `n`; the entity under annotation is
-    recognised by the exact spelling of its class name and answered from the current scope -/
+    recognised by the exact spelling of its class name and answered from its root table
+    (which the class index gives as well when the name is spelled in another letter case) -/
 def rhsEval (ec : EC) (n id : String) : EvalTy :=
-  let v? := if n = ec.st.root.sc.cls then some (viewCur norm w ec.st) else service norm w ec n
+  let v? := if n = ec.st.root.sc.cls then some (viewRoot norm w ec.now ec.st.root) else service norm w ec n
   match v? with
   | some v =>
     match searchWParent norm v.chain id with
@@ -355,6 +382,7 @@ def evalEx (ec : EC) : Ex → EvalTy
     | .call id =>
       match evalEx ec l with
       | .cls n => rhsEval norm w ec n id
+      | .mod n => rhsEval norm w ec n id
       | _ => .unknown
     | _ => .unknown
   | .other => .unknown
@@ -369,13 +397,13 @@ deriving DecidableEq, Repr, Inhabited
 
 /-- `LocationLink` for a hit `(in_class, sym_info)`: `get_uri_for_class(in_class)` may fail -/
 def linkOf (h : String × Sym) : Option Link :=
-  match index norm w h.1, findUid w h.2.tag with
-  | some e, some loc => some ⟨e.stem, loc.d.sel, loc.d.rng⟩
+  match index norm w h.1, findDecl w h.2.tag with
+  | some e, some d => some ⟨e.stem, d.sel, d.rng⟩
   | _, _ => none
 
 /-- at request time every entity is answered by its finished root table -/
 def serviceFin (name : String) : Option View :=
-  (index norm w name).map (fun e => viewRoot norm w (rootOf norm e))
+  (index norm w name).map (fun e => viewRoot norm w none (rootOf norm e))
 
 /-- `generate_loc_link_single` (`search_uses = true` at both call sites) -/
 def linkSingle (v : View) (id : String) : List Link :=
@@ -398,7 +426,7 @@ inductive DCtx where
   | plain (id : Option String)              -- not under a dot: nearest table, then uses
   | left (id : Option String)               -- left operand of a dot: same
   | right (l : Ex) (id : Option String)     -- right operand of a dot whose left operand is `l`
-  | own (id : Option String)                -- child of a method declaration / a field declaration node
+  | own (id : Option String)                -- declared name of a method / a field declaration node: class-level table
 deriving Repr, Inhabited
 
 structure Occ where
@@ -411,12 +439,12 @@ deriving Repr, Inhabited
 def source (o : String) : Option Entity := w.find? (fun e => e.stem = o)
 
 /-- `generate_right_hand_of_entity`: members of entity `n`; the request's own file is answered
-    from the table nearest to the position -/
-def rhsLinks (e : Entity) (st : View) (n id : String) : List Link :=
+    from the class-level table of its document (`own`) -/
+def rhsLinks (e : Entity) (own : View) (n id : String) : List Link :=
   match index norm w n with
   | none => []
   | some t =>
-    let tv := if t.stem = e.stem then st else viewRoot norm w (rootOf norm t)
+    let tv := if t.stem = e.stem then own else viewRoot norm w none (rootOf norm t)
     linkAll norm w tv id
 
 /-- `DefinitionService::get_definition` after `search_encasing_node` -/
@@ -431,15 +459,15 @@ def definition (o : Occ) : List Link :=
     | .left (some id) => linkSingle norm w st id
     | .right l (some id) =>
       match evalEx norm w ⟨e, stAt norm e o.time⟩ l with
-      | .cls n => rhsLinks norm w e st n id
-      | .mod n => rhsLinks norm w e st n id
+      | .cls n => rhsLinks norm w e (viewRoot norm w none fin.root) n id
+      | .mod n => rhsLinks norm w e (viewRoot norm w none fin.root) n id
       | _ => []
-    | .own (some id) => linkAll norm w st id
+    | .own (some id) => linkAll norm w (viewRoot norm w none fin.root) id
     | _ => []
 
 /-! ### completion (`completion_service.rs`) -/
 
-def kindOf (x : Sym) : Option SK := (findUid w x.tag).map (fun l => l.d.kind)
+def kindOf (x : Sym) : Option SK := (findDecl w x.tag).map (·.kind)
 
 def isMember (k : SK) : Bool := k == .field || k == .func || k == .proc
 
@@ -468,7 +496,7 @@ def rhsLabels (e : Entity) (st : View) (n : String) : List String :=
   match index norm w n with
   | none => []
   | some t =>
-    let tv := if t.stem = e.stem then st else viewRoot norm w (rootOf norm t)
+    let tv := if t.stem = e.stem then st else viewRoot norm w none (rootOf norm t)
     labels norm w isMember tv
 
 /-- `CompletionService::generate_completion_proposals` after `search_encasing_node` -/
